@@ -695,11 +695,13 @@ def gen_cases(rng, tier, chk):
             if p.bit_length() * e > ((45000 if thorough else 36000) if p >= 991 else 6000):
                 continue
             if not thorough and p > 1013 and e >= 991 and e != 1009:
-                continue                  # the extracted model needs ~1 s per 10^4 bits here: one exponent for the larger bases
+                continue
+            if not thorough and p < 1009 and e >= 991 and (p, e) not in ((997, 1009), (991, 997), (997, 997)):
+                continue                  # table bases: the model's multiplicity loop is quadratic (2.5 s at 10^4 bits, 10 s at 2*10^4)                  # the extracted model needs ~1 s per 10^4 bits here: one exponent for the larger bases
             n = p ** e
             cl = "huge p^e, p %s 1009, e %s" % ("<" if p < 1009 else ">=", "prime" if is_prime(e) else "composite")
             add("ipp", [n], "ipp", {p: e}, cl if e >= 991 else "table-bound base, small e")
-            if e >= 991 and (thorough or (p in (997, 1009) and e in (1009, 2018))):
+            if e >= 991 and (thorough or (p, e) in ((997, 1009), (1009, 1009), (1009, 2018))):
                 q = next_prime(p)
                 add("ipp", [n + 2], "ipp", None, "huge non-power p^e+2")
                 add("ipp", [n * q], "ipp", {p: e, q: 1}, "huge non-power p^e*q")
